@@ -14,6 +14,7 @@ func init() { register("C13", checkC13) }
 
 func checkC13(c *Ctx) {
 	r := c.R
+	r.Rule("R02.3", "(shared with C02) the sink is told the record's own severity (its recursion guard and the destination selection rely on it): the level argument of every sink call is the level stored for the record")
 	r.Rule("R13.6", "failures leave no sticky state in a lock: every mutex the package acquires is released on every path to a return (the error return included), and the failure diagnostic is not logged while a mutex the sink needs is held")
 	r.Rule("R13.1", "fan-out continues: the loop of LWs.Write over the members has the natural exit only (no return, break, goto or panic in its body); the error edge rejoins the loop; each member gets the whole payload")
 	r.Rule("R13.2", "bounded reaction: every call from the sink (or a helper it calls) back into the logging entry points is dominated by err != nil and by lvl != C, and the only severity such a call can issue is that same C (so the nested record cannot trigger another diagnostic): recursion depth at most 2, at most one diagnostic per failing record, none for a warning")
@@ -40,6 +41,7 @@ func checkC13(c *Ctx) {
 		c13Fanout(c, p, m)
 		c13Reaction(c, p, m)
 		lockDiscipline(c, p, "R13.6")
+		c02Newline(c, p, m)
 		c02Counts(c, p, m)
 		c08Pools(c, p, m)
 		c01Gates(c, p, m, tags)
@@ -474,6 +476,17 @@ func unprovenPositions(p *Prog, m *Model, fn *ssa.Function) []string {
 			case *ssa.IndexAddr:
 				if seqT(x.X.Type()) && !boundedBy(x.Index, x.X, b, true) {
 					out = append(out, fmt.Sprintf("%s[%s] at %s: the position is not bounded by the length", m.valDesc(x.X), m.valDesc(x.Index), p.Pos(instrPos(x))))
+				}
+				// a fixed-size table indexed at a computed position (e.g. by the position of a member in a list of any length)
+				if pt, isP := x.X.Type().Underlying().(*types.Pointer); isP {
+					if at, isA := pt.Elem().Underlying().(*types.Array); isA {
+						if _, isC := constInt(x.Index); !isC {
+							up, _, have := idxUpper(x.Index, b)
+							if !have || up >= at.Len() {
+								out = append(out, fmt.Sprintf("%s[%s] at %s: the table has %d entries and the position is not bounded below that (a list with more members makes the call panic instead of returning)", m.valDesc(x.X), m.valDesc(x.Index), p.Pos(instrPos(x)), at.Len()))
+							}
+						}
+					}
 				}
 			case *ssa.Slice:
 				if !seqT(x.X.Type()) {
